@@ -476,3 +476,88 @@ package regexp2
 //@   props C15
 //@   requires r != nil
 //@   ensures b == ite(r.rightToLeft, -1, 1)
+
+// ---------------------------------------------------------------------------------------------
+// C17: group numbers, names and slots form one consistent map (regexp.go, match.go)
+// ---------------------------------------------------------------------------------------------
+
+// Slot of a user-visible group number (dense index into the capture arrays).
+//@ spec func SlotOf(re *Regexp, n int) int = ite(re.caps != nil, ite(has(re.caps, n), re.caps[n], -1), ite(0 <= n && n < re.capsize, n, -1))
+// What Compile establishes about the group tables (assumed at the lookup functions; the parser side is bounded).
+//@ spec func GroupsWF(re *Regexp) bool = re != nil && 1 <= re.capsize && re.capsize <= 281474976710656 &&
+//@     (re.caps != nil ==> len(re.caps) == re.capsize && forall k int :: has(re.caps, k) ==> 0 <= re.caps[k] && re.caps[k] < re.capsize) &&
+//@     (re.capslist != nil ==> len(re.capslist) == re.capsize && re.capnames != nil &&
+//@          forall i int :: 0 <= i && i < re.capsize ==> has(re.capnames, re.capslist[i]) && SlotOf(re, re.capnames[re.capslist[i]]) == i) &&
+//@     (re.capnames != nil ==> re.capslist != nil)
+
+//@ func (re *Regexp) GroupNumberFromName(name string) (n int)
+//@   props C17
+//@   overflow
+//@   requires GroupsWF(re)
+//@   ensures[named]   re.capnames != nil ==> n == ite(has(re.capnames, name), re.capnames[name], -1)
+//@   ensures[numeric] re.capnames == nil ==> n == -1 || (0 <= n && n < re.capsize)
+//@   ensures[numeric-digits] re.capnames == nil && n >= 0 ==> forall k int :: 0 <= k && k < len(name) ==> '0' <= name[k] && name[k] <= '9'
+//@   loop 0:
+//@     invariant 0 <= i && i <= len(name) && 0 <= result && result < re.capsize && re.capnames == nil
+//@     invariant forall k int :: 0 <= k && k < i ==> '0' <= name[k] && name[k] <= '9'
+//@     decreases len(name) - i
+
+//@ func (re *Regexp) GroupNameFromNumber(i int) (s string)
+//@   props C17
+//@   requires GroupsWF(re)
+//@   ensures[unnamed] re.capslist == nil ==> s == ite(0 <= i && i < re.capsize, strconv.Itoa(i), "")
+//@   ensures[named]   re.capslist != nil ==> s == ite(SlotOf(re, i) >= 0, re.capslist[SlotOf(re, i)], "")
+//@   ensures[roundtrip] re.capslist != nil && re.caps == nil && 0 <= i && i < re.capsize ==> has(re.capnames, s) && re.capnames[s] == i
+
+//@ func (re *Regexp) GetGroupNumbers() (result []int)
+//@   props C17
+//@   requires GroupsWF(re)
+//@   ensures len(result) == re.capsize
+//@   ensures re.caps == nil ==> forall i int :: 0 <= i && i < re.capsize ==> result[i] == i
+//@   loop 0:
+//@     invariant 0 <= i && i <= len(result) && len(result) == re.capsize && fresh(result) && re.caps == nil
+//@     invariant forall k int :: 0 <= k && k < i ==> result[k] == k
+//@     decreases len(result) - i
+//@   loop 1:
+//@     invariant len(result) == re.capsize && fresh(result) && re.caps != nil
+
+//@ func (m *Match) GroupByNumber(num int) (g *Group)
+//@   props C17 C08
+//@   requires m != nil && MatchWF(m) && m.regex != nil && GroupsWF(m.regex)
+//@   requires m.otherGroups != nil ==> len(m.otherGroups) == len(m.matchcount) - 1 && off(m.otherGroups) == 0
+//@   requires forall g int :: 0 <= g && g < len(m.matchcount) ==> m.matches[g] != nil || m.matchcount[g] == 0
+//@   modifies m.otherGroups
+//@   ensures[nil]  (g == nil) == (SparseSlot(m, num) < 0 || SparseSlot(m, num) >= len(m.matchcount))
+//@   ensures[zero] g != nil && SparseSlot(m, num) == 0 ==> g.RuneIndex == m.RuneIndex && g.RuneLength == m.RuneLength
+//@ spec func SparseSlot(m *Match, num int) int = ite(m.sparseCaps != nil && has(m.sparseCaps, num), m.sparseCaps[num], num)
+
+// C08: materialised groups. The embedded capture of a group is its last capture; Captures lists all of them in order.
+//@ func newGroup(name string, text *matchText, caps []int, capcount int) (g Group)
+//@   props C08
+//@   requires 0 <= capcount && 2*capcount <= len(caps)
+//@   ensures g.Name == name && g.text == text && len(g.Captures) == capcount
+//@   ensures[last] capcount > 0 ==> g.RuneIndex == caps[2*capcount-2] && g.RuneLength == caps[2*capcount-1]
+//@   ensures[all]  forall i int :: 0 <= i && i < capcount ==> g.Captures[i].RuneIndex == caps[2*i] && g.Captures[i].RuneLength == caps[2*i+1] && g.Captures[i].text == text
+//@   loop 0:
+//@     invariant 0 <= i && i <= capcount && len(g.Captures) == capcount && fresh(g.Captures) && off(g.Captures) == 0
+//@     invariant forall k int :: 0 <= k && k < i ==> g.Captures[k].RuneIndex == caps[2*k] && g.Captures[k].RuneLength == caps[2*k+1] && g.Captures[k].text == text
+//@     invariant g.Name == name && g.text == text && (capcount > 0 ==> g.RuneIndex == caps[2*capcount-2] && g.RuneLength == caps[2*capcount-1])
+//@     decreases capcount - i
+
+//@ func (m *Match) populateOtherGroups()
+//@   props C08 C17
+//@   requires m != nil && MatchWF(m) && m.regex != nil && GroupsWF(m.regex)
+//@   requires m.otherGroups != nil ==> len(m.otherGroups) == len(m.matchcount) - 1 && off(m.otherGroups) == 0
+//@   requires forall g int :: 0 <= g && g < len(m.matchcount) ==> m.matches[g] != nil || m.matchcount[g] == 0
+//@   modifies m.otherGroups
+//@   ensures m.otherGroups != nil && len(m.otherGroups) == len(m.matchcount) - 1 && off(m.otherGroups) == 0
+//@   ensures old(m.otherGroups) != nil ==> m.otherGroups == old(m.otherGroups)
+//@   ensures[groups] old(m.otherGroups) == nil ==> fresh(m.otherGroups) && forall i int :: 0 <= i && i < len(m.otherGroups) ==>
+//@             len(m.otherGroups[i].Captures) == m.matchcount[i+1] && m.otherGroups[i].text == m.text &&
+//@             (m.matchcount[i+1] > 0 ==> m.otherGroups[i].RuneIndex == m.matches[i+1][2*m.matchcount[i+1]-2] && m.otherGroups[i].RuneLength == m.matches[i+1][2*m.matchcount[i+1]-1])
+//@   loop 0:
+//@     invariant 0 <= i && i <= len(m.otherGroups) && len(m.otherGroups) == len(m.matchcount) - 1 && fresh(m.otherGroups) && off(m.otherGroups) == 0 && m.otherGroups != nil
+//@     invariant forall k int :: 0 <= k && k < i ==>
+//@             len(m.otherGroups[k].Captures) == m.matchcount[k+1] && m.otherGroups[k].text == m.text &&
+//@             (m.matchcount[k+1] > 0 ==> m.otherGroups[k].RuneIndex == m.matches[k+1][2*m.matchcount[k+1]-2] && m.otherGroups[k].RuneLength == m.matches[k+1][2*m.matchcount[k+1]-1])
+//@     decreases len(m.otherGroups) - i
